@@ -899,35 +899,237 @@ def findings(ctx, model):
         ctx.known_finding(kid, r is not None, detail=(r or {}).get("fails", ""))
 
 
-def search(ctx, model, why):
-    """thorough tier: evaluate the property oracles (no model involved) on fresh random histories"""
-    common.setup_scico()
-    for i in range(60):
-        case = gen_session(ctx, max_ops=MAX_OPS_QUICK)
-        r = session_oracle(case)
+# --------------------------------------------------------------------------------------------------
+# failing-input search: property oracles only (no model), targeted at the functions whose table rows differ
+
+
+def _known_session(ctx, r):
+    kid = None
+    if "counter after solve" in r.get("fails", "") and r["op"].get("maxiter", 1) <= 0:
+        kid = "maxiter0-itnum"
+    elif "counter after solve" in r.get("fails", "") and r.get("callback_assigned_maxiter"):
+        kid = "callback-maxiter-counter"
+    if kid and ctx.is_known(kid):
+        ctx.known_finding(kid, True)
+        return True
+    return False
+
+
+def panel_sessions(ctx, classes=None, n_random=60):
+    """exhaustive small scope (depth 2) + random sessions (all option sets, assigning / raising callbacks, shared options)"""
+    import itertools
+
+    alphabet = [{"op": "solve", "maxiter": m, "cb": cb} for m in (0, 1, 2) for cb in (False, True)] + [{"op": "step"}]
+    for cls in (classes or ["pgm"]):
+        spec = {"cls": cls, "n": 2, "block": cls not in ("nlpadmm", "admm"), "has_eval": True,
+                "nan": {"at": 2, "who": "g", "pos": [0, 0], "val": "inf", "sanitise": True}, "kwargs": {"iter0": 3, "nanstop": True}}
+        for d in (1, 2):
+            for seq in itertools.product(range(len(alphabet)), repeat=d):
+                ops = [dict(alphabet[i]) for i in seq]
+                if not any(o["op"] == "solve" for o in ops):
+                    continue
+                k = D.max_steps(ops)
+                case = {"kind": "session", "spec": spec, "ops": ops, "step_ticks": [1 + (q % 3) for q in range(k + 1)],
+                        "cb_ticks": [5 + q for q in range(k + 1)], "clock0": 2}
+                ctx.count("search:sessions (small scope)")
+                r = session_oracle(case)
+                if r is not None and not _known_session(ctx, r):
+                    return r
+    for i in range(n_random):
+        cls = (classes or D.CLASSES)[i % len(classes or D.CLASSES)]
+        case = gen_session(ctx, cls=cls, max_ops=MAX_OPS_QUICK)
         ctx.count("search:sessions")
-        if r is not None:
-            kid = None
-            if "counter after solve" in r.get("fails", "") and r["op"].get("maxiter", 1) <= 0:
-                kid = "maxiter0-itnum"
-            elif "counter after solve" in r.get("fails", "") and r.get("callback_assigned_maxiter"):
-                kid = "callback-maxiter-counter"
-            if kid and ctx.is_known(kid):
-                ctx.known_finding(kid, True)
-                continue
+        r = session_oracle(case)
+        if r is not None and not _known_session(ctx, r):
             return r
-    for i in range(600):
+    return None
+
+
+def panel_timer(ctx, n_random=600):
+    """every history of <= 3 mutating calls (15-call alphabet, all labels queried, arguments and `total` also left to
+    their defaults, constructor labels left to their defaults) + random histories with ContextTimer / str"""
+    import itertools
+
+    args = [None, "a", "all", ["a", "zz", "b"], "zz"]
+    alphabet = [(op, a) for op in ("start", "stop", "reset") for a in args]
+    for ctor_defaults in (True, False):
+        cfg = {"init": "b", "dflt": "main", "all": "all", "ctor_defaults": ctor_defaults}
+        for d in (1, 2, 3):
+            for seq in itertools.product(alphabet, repeat=d):
+                calls, t = [], 0
+                for op, a in seq:
+                    t += 2
+                    calls.append({"t": t, "op": op, "arg": a, **({"noarg": True} if a is None else {})})
+                    for q in (None, "a", "b", "zz", "all", "main"):
+                        for tot in (True, False):
+                            calls.append({"t": t + 1, "op": "elapsed", "arg": q, "total": tot})
+                    calls.append({"t": t + 1, "op": "elapsed", "arg": None, "total": True, "nototal": True, "noarg": True})
+                    calls.append({"t": t + 1, "op": "elapsed", "arg": "a", "total": True, "nototal": True})
+                ctx.count("search:timer (small scope)")
+                r = timer_oracle({"cfg": cfg, "calls": calls})
+                if r is not None:
+                    return r
+            if not ctor_defaults and d == 2:
+                break  # the explicit-constructor variant only to depth 2
+    for i in range(n_random):
         cfg, calls = G.gen_timer_case(ctx.rng, 30)
         r = timer_oracle({"cfg": cfg, "calls": calls})
         ctx.count("search:timer")
         if r is not None:
             if r.get("timer_returned") == "TypeError" and ctx.is_known("timer-str-running"):
                 ctx.known_finding("timer-str-running", True)
-                # look behind the known failure: the same history without the table queries
                 r = timer_oracle({"cfg": cfg, "calls": [c for c in calls if c["op"] != "str"]})
                 if r is None:
                     continue
             return r
+    return None
+
+
+def panel_finite(ctx):
+    """`_working_vars_finite()` against the statement (finite iff every entry of every working variable is finite)"""
+    import numpy as np
+    import scico.numpy as snp
+    from scico.numpy import BlockArray
+
+    for cls in D.CLASSES:
+        for block in (False, True):
+            if cls == "nlpadmm" and block:
+                continue
+            spec = {"cls": cls, "n": 2, "block": block, "nan": None, "kwargs": {}, "solver": "linearScicoCG"}
+            s = D.build(spec)
+            vars0 = D.working_vars(spec, s)
+            if not bool(s._working_vars_finite()):
+                return {"cls": cls, "block": block, "fails": "_working_vars_finite() is False on a freshly constructed optimiser"}
+            names = {"admm": ["x", "z_list", "u_list"], "ladmm": ["x", "z", "u"], "padmm": ["x", "z", "u"], "nlpadmm": ["x", "z", "u"],
+                     "pdhg": ["x", "z"], "pgm": ["x"], "apgm": ["x", "v"]}[cls]
+            for a in names:
+                v0 = getattr(s, a)
+                items = list(range(len(v0))) if isinstance(v0, list) else [None]
+                for li in items:
+                    cur = v0[li] if li is not None else v0
+                    nb = len(cur) if isinstance(cur, BlockArray) else 1
+                    for b in range(nb):
+                        for val, bad in ((np.nan, True), (np.inf, True), (-np.inf, True), (1e200, False), (-1.7e308, False)):
+                            blk = cur[b] if isinstance(cur, BlockArray) else cur
+                            nblk = blk.reshape(-1).at[blk.size - 1].set(val).reshape(blk.shape)
+                            new = snp.blockarray([nblk if q == b else cur[q] for q in range(nb)]) if isinstance(cur, BlockArray) else nblk
+                            if li is not None:
+                                l = list(v0)
+                                l[li] = new
+                                setattr(s, a, l)
+                            else:
+                                setattr(s, a, new)
+                            got = bool(s._working_vars_finite())
+                            setattr(s, a, v0)
+                            ctx.count("search:finite")
+                            if got == bad:
+                                return {"cls": cls, "block": block, "variable": a, "list_index": li, "block_index": b, "planted": repr(val),
+                                        "fails": f"_working_vars_finite() returned {got} with {val!r} planted in the last entry of a working variable"}
+            del vars0
+    return None
+
+
+def panel_constructor(ctx):
+    """documented defaults and keyword handling of Optimizer.__init__, and the options object"""
+    from scico.optimize._common import itstat_func_and_object
+
+    for cls in D.CLASSES:
+        spec = {"cls": cls, "n": 2, "block": False, "nan": None, "kwargs": {}, "solver": "linearScicoCG"}
+        s = D.build(spec)
+        ctx.count("search:constructor")
+        got = {"itnum": int(s.itnum), "maxiter": int(s.maxiter), "nanstop": bool(s.nanstop), "records": len(s.itstat_object.history()),
+               "timer_labels": list(s.timer.labels())}
+        want = {"itnum": 0, "maxiter": 100, "nanstop": False, "records": 0, "timer_labels": []}
+        if got != want:
+            return {"cls": cls, "constructed_without_keywords": got, "documented": want, "fails": "defaults of Optimizer.__init__ differ from the documented ones"}
+        try:
+            D.build(spec, maxiters=3)
+            return {"cls": cls, "fails": "an unknown keyword argument (maxiters=3) was accepted"}
+        except TypeError:
+            pass
+        s = D.build(dict(spec, kwargs={"iter0": 5, "maxiter": 2, "nanstop": True}))
+        if (int(s.itnum), int(s.maxiter), bool(s.nanstop)) != (5, 2, True):
+            return {"cls": cls, "fails": "iter0 / maxiter / nanstop keywords not stored"}
+
+    def custom(obj):
+        return (0, 0)
+
+    for user in (None, {}, {"itstat_func": custom}, {"fields": {"A": "%d", "B": "%d"}, "itstat_func": custom}, {"display": False, "period": 3}):
+        snap = None if user is None else list(user.items())
+        res = []
+        for _ in range(3):
+            f, obj = itstat_func_and_object({"Iter": "%d", "Time": "%8.2e"}, ["itnum", "timer.elapsed()"], user)
+            res.append((f is custom, list(obj.fieldname), int(obj.period)))
+        ctx.count("search:options")
+        if user is not None and (list(user.keys()) != [k for k, _ in snap] or not all(user[k] is v for k, v in snap)):
+            return {"options": sorted(user or {}), "fails": "itstat_func_and_object modified the caller's itstat_options dictionary"}
+        if any(r != res[0] for r in res) or res[0][0] != bool(user and "itstat_func" in user):
+            return {"options": None if user is None else sorted(user), "setups": res, "fails": "statistics set-up is not a function of the options alone"}
+    return None
+
+
+def _differing_rows(model):
+    """keys of the translated tables that differ from the model's transcription (None = could not be determined)"""
+    try:
+        src = driver_translate.read_source()
+    except Exception:  # noqa: BLE001
+        return None
+    m = model.call("srctables")
+    ms = {k: [[int(d), t] for d, t in rows] for k, rows in m["skeletons"]}
+    keys = set()
+    for k, rows in src["skeletons"]:
+        if ms.get(k) != [[int(d), t] for d, t in rows]:
+            keys.add(k)
+    keys |= set(ms) - {k for k, _ in src["skeletons"]}
+    msig = {k: [list(q) for q in ps] for k, ps in m["signatures"]}
+    for k, ps in src["signature"]:
+        if msig.get(k) != [list(q) for q in ps]:
+            keys.add(k)
+    if [n for n, _ in src["pops"]] != list(m["options"]):
+        keys.add("Optimizer.__init__")
+    return keys
+
+
+def search(ctx, model, why):
+    """failing-input search with the property oracles only.  After a broken generated obligation the panels of the
+    functions whose table rows differ run first (so a behaviour-changing edit is reported with a failing input); then,
+    and in the unconditional thorough-tier search, all panels."""
+    common.setup_scico()
+    panels = {"timer": panel_timer, "finite": panel_finite, "constructor": panel_constructor}
+    order = []
+    classes = None
+    if why is not None:
+        keys = _differing_rows(model) if "DriverSource" in why.get("module", "") else None
+        ctx.extra.setdefault("search_targets", {})[why.get("module", "?")] = sorted(keys) if keys else "all"
+        if keys:
+            cmap = {c[2]: c[0] for c in driver_translate.CLASSES}
+            hit = [cmap[k.split(".")[0]] for k in keys if k.split(".")[0] in cmap]
+            classes = sorted(set(hit)) or None
+            for k in sorted(keys):
+                if k.startswith(("Timer.", "ContextTimer.")):
+                    order.append("timer")
+                elif k == "_all_finite":
+                    order.append("finite")
+                elif k in ("Optimizer.__init__", "itstat_func_and_object"):
+                    order += ["constructor", "sessions"]
+                else:
+                    order.append("sessions")
+        elif "DriverFields" in why.get("module", ""):
+            order = ["finite", "sessions"]
+    order += ["sessions", "timer", "constructor", "finite"] if why is None or not order else ["sessions", "timer", "constructor", "finite"]
+    done = set()
+    for name in order:
+        if name in done:
+            continue
+        done.add(name)
+        if name == "sessions":
+            r = panel_sessions(ctx, classes=(classes if classes else None) and classes, n_random=60)
+            if r is None and classes:
+                r = panel_sessions(ctx, classes=None, n_random=40)
+        else:
+            r = panels[name](ctx) if name != "timer" else panel_timer(ctx, n_random=600 if why is None else 200)
+        if r is not None:
+            return dict(r, found_by_panel=name)
     return None
 
 
